@@ -329,6 +329,16 @@ func API(c Case) (out Case) {
 		return out
 	}
 	evs = append(evs, M{"op": "dump", "d": DumpProblem(pb)})
+	if boolean(c, "hasObj") {
+		// Precondition of SetCostFunc: the cost function is over variables of the problem. The constraint
+		// front ends do not register variables that only occur in trivially true constraints.
+		for _, l := range ints(obj(c, "obj"), "lits") {
+			if l > pb.NbVars || -l > pb.NbVars {
+				evs = append(evs, M{"op": "skip", "why": "cost function mentions a variable the parsed problem does not have"})
+				return out
+			}
+		}
+	}
 	if boolean(cfg, "amo") {
 		before := DumpProblem(pb)
 		pb.DetectAtMostOne()
